@@ -106,7 +106,67 @@ def run_rel(yaml_text, via_create_wrapper):
         shutil.rmtree(d, ignore_errors=True)
 
 
+def run_splicer_path(via_create_wrapper, explicit_path):
+    """the YAML file names a splicer file (`splicer: c: [csplicer.c]`) and lives in a SUBDIRECTORY of the working directory;
+    a csplicer.c exists in the working directory, next to the YAML file and in a third directory.  Without --path the
+    command line searches the working directory; create_wrapper(path=None) must do the same, and path=[d] must equal
+    --path d."""
+    from shroud import main as M
+    d = tempfile.mkdtemp(prefix="mopt_")
+    cwd = os.getcwd()
+    try:
+        os.makedirs(os.path.join(d, "src"))
+        os.makedirs(os.path.join(d, "third"))
+        os.makedirs(os.path.join(d, "out"))
+        open(os.path.join(d, "src", "opt.yaml"), "w").write(YAML % "splicer:\n  c:\n  - csplicer.c")
+        for where, expr in ((".", "1"), ("src", "2"), ("third", "3")):
+            open(os.path.join(d, where, "csplicer.c"), "w").write(
+                "// splicer begin function.fone\nint from_dir_%s = %s;\n// splicer end function.fone\n" % (expr, expr))
+        os.chdir(d)
+        with contextlib.redirect_stdout(io.StringIO()):
+            try:
+                if via_create_wrapper:
+                    if explicit_path:
+                        M.create_wrapper(os.path.join("src", "opt.yaml"), outdir="out", path=["third"])
+                    else:
+                        M.create_wrapper(os.path.join("src", "opt.yaml"), outdir="out")
+                else:
+                    a = args_for(os.path.join("src", "opt.yaml"), "out")
+                    a.logdir = ""
+                    a.path = ["third"] if explicit_path else []
+                    M.main_with_args(a)
+            except SystemExit as e:
+                return "exit", str(e)
+            except (RuntimeError, NotImplementedError) as e:
+                return "rejected", str(e)[:100]
+            except Exception as e:
+                return "internal", "%s: %s" % (type(e).__name__, str(e)[:100])
+        files = {}
+        for n in sorted(os.listdir(os.path.join(d, "out"))):
+            if n.endswith((".c", ".cpp", ".h", ".f", ".hpp")):
+                files[n] = open(os.path.join(d, "out", n)).read()
+        return "ok", files
+    finally:
+        os.chdir(cwd)
+        shutil.rmtree(d, ignore_errors=True)
+
+
 def check(inp):
+    if inp["kind"] == "create_wrapper_splicer_path":
+        for explicit in (False, True):
+            a, b = run_splicer_path(False, explicit), run_splicer_path(True, explicit)
+            what = "path=['third'] / --path third" if explicit else "no path given"
+            if b[0] == "internal":
+                return "create_wrapper: internal exception %s (%s)" % (b[1], what)
+            if a[0] != b[0]:
+                return "command line -> %s, create_wrapper -> %s (splicer file named in the YAML file, %s)" % (a[0], b[0], what)
+            if a[0] == "ok" and a[1] != b[1]:
+                diff = sorted(n for n in set(a[1]) | set(b[1]) if a[1].get(n) != b[1].get(n))
+                return "create_wrapper differs from the command line in %s: the splicer file named in the YAML file is looked up " \
+                       "in another directory (%s)" % (diff, what)
+            if a[0] == "ok" and not any("from_dir_" in t for t in a[1].values()):
+                return None if a[0] != "ok" else "monitor: the splicer block did not reach the output (scenario broken)"
+        return None
     if inp["kind"] == "create_wrapper_relative":
         y = YAML % "options:\n  wrap_python: true"
         a, b = run_rel(y, False), run_rel(y, True)
@@ -174,6 +234,7 @@ def check(inp):
 def candidates(seed, around=None):
     yield {"kind": "create_wrapper"}
     yield {"kind": "create_wrapper_relative"}
+    yield {"kind": "create_wrapper_splicer_path"}
     for lang in ("c", "c++"):
         yield {"kind": "language", "lang": lang}
     yield {"kind": "language_override", "yaml": "c++", "cli": "c"}
